@@ -70,7 +70,7 @@ def drive(ctx):
             work.append(("valid", tmpl % big))
     work = ctx.mine(sorted(set(work)))
     if q:
-        work = pick(rnd, work, 260)
+        work = pick(rnd, work, 900)
     for (cls, text) in work:
         ctx.emit("dur_parse", {"text": cps(text), "cls": cls})
     # intervals
@@ -85,5 +85,5 @@ def drive(ctx):
             ivs.append(("start/duration", s1, d))
             ivs.append(("duration/end", d, s1))
     ivs = ctx.mine(ivs)
-    for (kind, t1, t2) in (pick(rnd, ivs, 12) if q else ivs):
+    for (kind, t1, t2) in (pick(rnd, ivs, 40) if q else ivs):
         ctx.emit("iv_parse", {"kind": kind, "t1": cps(t1), "t2": cps(t2)})
